@@ -10,6 +10,9 @@ at the top-level directory.
 */
 
 #include "slu_mt_cdefs.h"
+#ifdef SLU_MT_VERIF
+#include "slu_mt_verif.h"
+#endif /* SLU_MT_VERIF */
 
 pcgstrf_threadarg_t *
 pcgstrf_thread_init(SuperMatrix *A, SuperMatrix *L, SuperMatrix *U,
@@ -158,6 +161,19 @@ pcgstrf_thread_init(SuperMatrix *A, SuperMatrix *L, SuperMatrix *U,
 	pcgstrf_threadarg[i].pxgstrf_shared = pxgstrf_shared;
     }
 
+#ifdef SLU_MT_VERIF
+    /* Words the algorithm deliberately accesses without locks: they are the
+       synchronisation flags themselves (the happens-before edges they carry
+       are declared where they are stored/loaded) or monotone hints. */
+    SLUV_TSAN_BENIGN(&pxgstrf_shared->tasks_remain, sizeof(pxgstrf_shared->tasks_remain), "tasks_remain");
+    SLUV_TSAN_BENIGN(pxgstrf_shared->spin_locks, n * sizeof(int_t), "spin_locks");
+    SLUV_TSAN_BENIGN(pxgstrf_shared->pan_status, (n+1) * sizeof(pan_status_t), "pan_status");
+    SLUV_TSAN_BENIGN(ispruned, n * sizeof(int_t), "ispruned");
+    SLUV_TSAN_BENIGN(xprune, n * sizeof(int_t), "xprune");
+    SLUV_TSAN_BENIGN(perm_r, n * sizeof(int_t), "perm_r");
+    SLUV_TSAN_BENIGN(&options->usepr, sizeof(options->usepr), "usepr");
+    SLUV_TSAN_BENIGN(&Glu.nextu, sizeof(Glu.nextu), "nextu");
+#endif /* SLU_MT_VERIF */
 #if ( PRNTlevel>=1 )
     printf("** pcgstrf_thread_init() called\n");
 #endif
